@@ -48,7 +48,10 @@ def run(spec, tier, seed, replay=None):
                     axioms_seen.add(a)
                     if a not in V.AXIOM_ALLOW and a.split(".")[-1] not in V.AXIOM_ALLOW:
                         broken_obl.append({"kind": "axiom", "detail": a, "file": os.path.relpath(f, V.COQ)})
-    n_obl, obl_names = V.count_obligations(vfiles + [f for f in deps if "/tie/" in f])
+    # obligations: the property theorems, the transfer lemmas, and every lemma of the theories they depend on
+    dep_files = sorted(f for f in deps if f not in vfiles and "/theories/Cases" not in f)
+    n_obl, obl_names = V.count_obligations(vfiles + dep_files)
+    obl_names = [n for n in obl_names if n.split(".")[0] in {os.path.basename(f)[:-2] for f in vfiles}] + ["(+ %d lemmas in %s)" % (n_obl - sum(1 for n in obl_names if n.split(".")[0] in {os.path.basename(f)[:-2] for f in vfiles}), ", ".join(os.path.basename(f) for f in dep_files))]
     # ---------------------------------------------------------------- harness
     impl_violations, summaries, samples = [], [], []
     evaluations = nontrivial = validated = 0
@@ -129,7 +132,7 @@ def run(spec, tier, seed, replay=None):
         discharged = n_obl
     else:
         # count only the statements of files whose .vo is present and up to date
-        built = [f for f in vfiles + [f for f in deps if "/tie/" in f]
+        built = [f for f in vfiles + dep_files
                  if os.path.exists(f + "o") and os.path.getmtime(f + "o") >= os.path.getmtime(f)]
         discharged = V.count_obligations(built)[0] if not any(b["kind"] in ("axiom", "audit") for b in broken_obl) else 0
     trusted = list(V.TRUSTED_BASE_COMMON) + spec.get("trusted_base", [])
